@@ -17,7 +17,8 @@ if os.path.exists(f"{D}/notes.md"):
     shutil.copy(f"{D}/notes.md", f"{dst}/notes.md")
 # results
 res = {}
-for f in sorted(glob.glob(f"/tmp/mut/results/{prop}-{n}-*.json")):
+tagp = "" if wave == "1" else f"w{wave}-"
+for f in sorted(glob.glob(f"/tmp/mut/results/{tagp}{prop}-{n}-*.json")):
     r = json.load(open(f)); tier = f.rsplit("-", 1)[1].split(".")[0]
     res[tier] = r
 demo = None
